@@ -6,7 +6,10 @@
 //	      passed the way the API documents them: start 0, end MaxUint64),
 //	rule  the era's UtxoValidationRules on a decoded, signed transaction whose
 //	      input is locked by the script (the native-script rule found in the
-//	      era's list for every pair; the whole list, rule by rule, for a sample),
+//	      era's list for every pair; the whole list, rule by rule, for a sample);
+//	      in the eras whose transactions have an is_valid flag (eras.ndjson, from
+//	      the specification) also on the transaction flagged is_valid = false,
+//	      with the specification's verdict `vf` for the flagged transaction,
 //	hash  NativeScript.Hash against Blake2b-224(0x00 ++ the bytes fed in).
 //
 // The expected verdict is the `v` entry computed by TLC; this file maps the
@@ -31,6 +34,7 @@ import (
 
 	gcbor "github.com/blinklabs-io/gouroboros/cbor"
 	"github.com/blinklabs-io/gouroboros/ledger/common"
+	"github.com/blinklabs-io/gouroboros/ledger/dijkstra"
 
 	"verifharness/vh"
 )
@@ -59,8 +63,17 @@ type srow struct {
 	Depth int               `json:"depth"`
 	Tok   []tok             `json:"tok"`
 	V     []int             `json:"v"`  // verdict per context (index into ctx.ndjson)
+	Vf    []int             `json:"vf"` // rule-level verdict per context for the transaction flagged is_valid = false
 	De    map[string]string `json:"de"` // context index -> deviation name, Evaluate level
 	Dr    map[string]string `json:"dr"` // context index -> deviation name, rule level
+}
+
+// eraRow: where the is_valid flag of an era's transactions comes from
+// ("envelope", "block", "none") and the values it can take.
+type eraRow struct {
+	Era     string `json:"era"`
+	Flag    string `json:"flag"`
+	IsValid []bool `json:"is_valid"`
 }
 
 type ctxRow struct {
@@ -293,6 +306,46 @@ type env struct {
 	keys  map[int]Key
 	owner Key
 	txid  []byte
+	// flag: era -> source of the is_valid flag, for the eras whose transactions can be flagged
+	// is_valid = false (from the specification's eras.ndjson)
+	flag map[string]string
+	// p2base: era -> rules that reject the flagged factory transaction whatever its script
+	p2base map[string]map[string]bool
+}
+
+// buildTx builds the factory transaction; flagged: with is_valid = false, set the
+// way the era's transactions get the flag - in the transaction's envelope
+// (Alonzo..Conway), or, for a Dijkstra transaction (whose envelope cannot say
+// is_valid = false), the way the block decoder marks the transactions listed in
+// the block body's invalid_transactions set.
+func buildTx(spec TxSpec, flagged bool, source string) (*Built, error) {
+	if !flagged {
+		return BuildTx(spec)
+	}
+	switch source {
+	case "envelope":
+		spec.Phase2Invalid = true
+		b, err := BuildTx(spec)
+		if err == nil && b.Tx.IsValid() {
+			return nil, fmt.Errorf("%s transaction with is_valid = false in its envelope decodes with IsValid() = true", spec.Era)
+		}
+		return b, err
+	case "block":
+		b, err := BuildTx(spec)
+		if err != nil {
+			return nil, err
+		}
+		dt, ok := b.Tx.(*dijkstra.DijkstraTransaction)
+		if !ok {
+			return nil, fmt.Errorf("%s transaction is a %T: do not know how its block flags it", spec.Era, b.Tx)
+		}
+		dt.TxIsValid = false
+		if b.Tx.IsValid() {
+			return nil, fmt.Errorf("%s transaction marked by its block still has IsValid() = true", spec.Era)
+		}
+		return b, nil
+	}
+	return nil, fmt.Errorf("%s transactions have no is_valid flag (source %q)", spec.Era, source)
 }
 
 func isValidityFailure(f RuleFailure) bool {
@@ -302,13 +355,17 @@ func isValidityFailure(f RuleFailure) bool {
 
 func isScriptFailure(f RuleFailure) bool { return strings.Contains(f.Type, "NativeScriptFailed") }
 
-func (e *env) caseKey(level, era string, s *srow, c ctxRow, dev, enc string, m tmap) string {
+func (e *env) caseKey(level, era string, s *srow, c ctxRow, dev, enc string, m tmap, flagged ...bool) string {
 	pre := level
 	if era != "" {
 		pre += ":era=" + era
 	}
-	return fmt.Sprintf("%s:s=%s:keys=%s:start=%s:end=%s:dev=%s:enc=%s:map=%s",
-		pre, s.Name, keysName(c.Keys), bname(c.Start), bname(c.End), dev, enc, m.name)
+	suf := ""
+	if len(flagged) > 0 && flagged[0] {
+		suf = ":p2invalid"
+	}
+	return fmt.Sprintf("%s:s=%s:keys=%s:start=%s:end=%s:dev=%s:enc=%s:map=%s%s",
+		pre, s.Name, keysName(c.Keys), bname(c.Start), bname(c.End), dev, enc, m.name, suf)
 }
 
 // evalLevel: Evaluate on the standalone-decoded script, all contexts; hash.
@@ -377,29 +434,44 @@ func (e *env) evalLevel(s *srow, enc string, m tmap) {
 
 // ruleLevel: a transaction of the era spending an input locked by the script.
 // full=false runs the rules of the era's list named *NativeScripts*; full=true
-// runs the whole list rule by rule (no other rule may reject).
-func (e *env) ruleLevel(s *srow, era, enc string, m tmap, full bool) {
+// runs the whole list rule by rule (no other rule may reject).  flagged: the
+// transaction is flagged is_valid = false; the expected verdict is then the
+// specification's verdict for the flagged transaction (vf).
+func (e *env) ruleLevel(s *srow, era, enc string, m tmap, full bool, flagged bool) {
 	raw, err := render(s.Tok, enc, m, e.keys)
 	if err != nil {
 		e.rep.Dead("render %s: %v", s.Name, err)
 	}
 	wantHash := Blake224(append([]byte{0}, raw...))
 	gk := fmt.Sprintf("rule:era=%s:s=%s:enc=%s:map=%s", era, s.Name, enc, m.name)
+	source, psuf := "", ""
+	if flagged {
+		source = e.flag[era]
+		if source == "" {
+			e.rep.Dead("%s: the specification has no flagged %s transactions", gk, era)
+		}
+		gk += ":p2invalid"
+		psuf = "/p2invalid"
+	}
 	e.rep.Guard(gk, map[string]any{"script_cbor": hex.EncodeToString(raw)}, func() {
 		for ci, c := range e.ctxs {
+			spec := s.V[ci] == 1
+			if flagged {
+				spec = s.Vf[ci] == 1
+			}
 			dev := "-"
 			if m.z {
 				if d, ok := s.Dr[strconv.Itoa(ci+1)]; ok {
 					dev = d
 				}
 			}
-			key := e.caseKey("rule", era, s, c, dev, enc, m)
+			key := e.caseKey("rule", era, s, c, dev, enc, m, flagged)
 			var sign []Key
 			for _, k := range c.Keys {
 				sign = append(sign, e.keys[k])
 			}
 			start, end := conc(m, c.Start), conc(m, c.End)
-			b, err := BuildTx(TxSpec{Era: era, Start: start, End: end, Owner: e.owner, Script: raw, Sign: sign, TxID: e.txid})
+			b, err := buildTx(TxSpec{Era: era, Start: start, End: end, Owner: e.owner, Script: raw, Sign: sign, TxID: e.txid}, flagged, source)
 			if err != nil {
 				e.rep.Dead("%s: cannot build transaction: %v", key, err)
 			}
@@ -439,22 +511,30 @@ func (e *env) ruleLevel(s *srow, era, enc string, m tmap, full bool) {
 					}
 				case isValidityFailure(f):
 					// the interval itself is C26's subject; the slot cannot lie inside an empty interval
+				case flagged && e.p2base[era][f.Rule]:
+					// the factory's flagged transaction has no redeemer; the rule that says so rejects it
+					// whatever script it carries (see baseline) and reads nothing the native-script rule reads
 				default:
 					e.rep.Dead("%s: rejected by a rule unrelated to native scripts: %+v", key, f)
 				}
 			}
 			e.rep.Case(h64(key), true)
 			holds := !rejected
-			if holds != (s.V[ci] == 1) {
+			if holds != spec {
 				lvl := "rule"
 				if full {
 					lvl = "rulefull"
 				}
-				e.o.disagree(lvl+"/"+era+"/"+m.name+"/"+enc+"/"+dev, dev != "-", key,
-					fmt.Sprintf("%s rule list on a transaction (validity start %v, invalid-hereafter %v, witnesses %v) locked by %s: script %s, specification: %s",
-						era, show(start), show(end), c.Keys, s.Name, okw(holds), okw(s.V[ci] == 1)),
+				what := "a transaction"
+				if flagged {
+					what = "a transaction flagged is_valid = false (" + source + ")"
+				}
+				e.o.disagree(lvl+"/"+era+"/"+m.name+"/"+enc+"/"+dev+psuf, dev != "-", key,
+					fmt.Sprintf("%s rule list on %s (validity start %v, invalid-hereafter %v, witnesses %v) locked by %s: script %s, specification: %s",
+						era, what, show(start), show(end), c.Keys, s.Name, okw(holds), okw(spec)),
 					map[string]any{"level": "rule", "era": era, "script": s.Name, "script_cbor": hex.EncodeToString(raw), "keys": c.Keys,
-						"start": show(start), "end": show(end), "spec": s.V[ci] == 1, "code": holds, "key": key,
+						"start": show(start), "end": show(end), "spec": spec, "code": holds, "key": key,
+						"p2invalid": flagged, "flag": source,
 						"tx_cbor": hex.EncodeToString(b.Bytes), "failed_rules": fails})
 			}
 		}
@@ -503,6 +583,32 @@ func (e *env) baseline(m tmap) {
 				}
 			}
 		}
+		source := e.flag[era]
+		if source == "" {
+			continue
+		}
+		// is_valid = false: apart from the script's own verdict only "marked invalid but no
+		// redeemer" may reject the factory's transaction.  Whether the native-script rule
+		// rejects the flagged any[] transaction is the property (judged per case, not here).
+		e.p2base[era] = map[string]bool{}
+		for _, t := range [][]tok{yes, no} {
+			raw, _ := render(t, "min", m, e.keys)
+			b, err := buildTx(TxSpec{Era: era, Owner: e.owner, Script: raw, TxID: e.txid}, true, source)
+			if err != nil {
+				e.rep.Dead("baseline: %v", err)
+			}
+			for _, slot := range []uint64{0, 1, maxU - 1} {
+				for _, x := range RunRules(b, slot) {
+					if isScriptFailure(x) {
+						continue
+					}
+					if !strings.Contains(x.Rule, "IsValidFlag") {
+						e.rep.Dead("baseline flagged %s transaction rejected at slot %d by an unrelated rule: %+v", era, slot, x)
+					}
+					e.p2base[era][x.Rule] = true
+				}
+			}
+		}
 	}
 }
 
@@ -530,6 +636,8 @@ type replayCase struct {
 	End    *string `json:"end"`
 	Spec   bool    `json:"spec"`
 	Key    string  `json:"key"`
+	P2     bool    `json:"p2invalid"` // the transaction is flagged is_valid = false
+	Flag   string  `json:"flag"`      // where the flag comes from (envelope | block)
 }
 
 func parseP(s *string) *uint64 {
@@ -590,7 +698,7 @@ func replayOne(rep *vh.Reporter, path string) {
 			for _, k := range rc.Keys {
 				sign = append(sign, keys[k])
 			}
-			b, err := BuildTx(TxSpec{Era: rc.Era, Start: start, End: end, Owner: owner, Script: script, Sign: sign, TxID: txid})
+			b, err := buildTx(TxSpec{Era: rc.Era, Start: start, End: end, Owner: owner, Script: script, Sign: sign, TxID: txid}, rc.P2, rc.Flag)
 			if err != nil {
 				rep.Dead("replay: %v", err)
 			}
@@ -614,8 +722,8 @@ func main() {
 		replayOne(rep, os.Args[2])
 		return
 	}
-	if len(os.Args) < 3 {
-		rep.Dead("usage: c29 <ctx.ndjson> <pairs.ndjson> | --replay <file>")
+	if len(os.Args) < 4 {
+		rep.Dead("usage: c29 <ctx.ndjson> <pairs.ndjson> <eras.ndjson> | --replay <file>")
 	}
 	ctxs, err := vh.ReadNDJSON[ctxRow](os.Args[1])
 	if err != nil || len(ctxs) == 0 {
@@ -632,12 +740,44 @@ func main() {
 		}
 	}
 	for _, r := range rows {
-		if len(r.V) != len(ctxs) {
-			rep.Dead("script %s has %d verdicts for %d contexts", r.Name, len(r.V), len(ctxs))
+		if len(r.V) != len(ctxs) || len(r.Vf) != len(ctxs) {
+			rep.Dead("script %s has %d + %d verdicts for %d contexts", r.Name, len(r.V), len(r.Vf), len(ctxs))
 		}
 	}
+	eras, err := vh.ReadNDJSON[eraRow](os.Args[3])
+	if err != nil || len(eras) == 0 {
+		rep.Dead("eras: %v", err)
+	}
+	// the eras whose transactions can be flagged is_valid = false, in the order of the factory's list
+	flag := map[string]string{}
+	for _, er := range eras {
+		known, canFalse, canTrue := false, false, false
+		for _, x := range Eras[1:] {
+			known = known || x == er.Era
+		}
+		for _, b := range er.IsValid {
+			canFalse = canFalse || !b
+			canTrue = canTrue || b
+		}
+		if !known || !canTrue || canFalse != (er.Flag != "none") {
+			rep.Dead("eras: cannot bind %+v", er)
+		}
+		if canFalse {
+			flag[er.Era] = er.Flag
+		}
+	}
+	var flaggedEras []string
+	for _, x := range Eras[1:] {
+		if flag[x] != "" {
+			flaggedEras = append(flaggedEras, x)
+		}
+	}
+	if len(eras) != len(Eras)-1 || len(flaggedEras) == 0 {
+		rep.Dead("eras: %d rule-level eras, %d of them with a flag; the factory has %d", len(eras), len(flaggedEras), len(Eras)-1)
+	}
 	rng := rand.New(rand.NewSource(vh.Seed()))
-	e := &env{rep: rep, ctxs: ctxs, keys: map[int]Key{1: NewKey(rng), 2: NewKey(rng)}, owner: NewKey(rng), txid: make([]byte, 32)}
+	e := &env{rep: rep, ctxs: ctxs, keys: map[int]Key{1: NewKey(rng), 2: NewKey(rng)}, owner: NewKey(rng), txid: make([]byte, 32),
+		flag: flag, p2base: map[string]map[string]bool{}}
 	rng.Read(e.txid)
 	e.o = &out{w: bufio.NewWriterSize(os.Stdout, 1<<20), counts: map[string]int{}, notes: map[string]int{}}
 	maps := timeMaps(T, rng)
@@ -701,24 +841,45 @@ func main() {
 			if (s.Depth > 2 || (thorough && s.Depth > 1)) && ri%8 != 0 && ri%3 != k {
 				continue
 			}
-			jobs <- func() { e.ruleLevel(s, era, "min", maps[0], false) }
+			jobs <- func() { e.ruleLevel(s, era, "min", maps[0], false, false) }
+			// the same pairs on the transaction flagged is_valid = false, where the era has the flag:
+			// every leaf, and in the quick tier every 2nd (Conway) / 8th (Dijkstra) of the other scripts
+			if e.flag[era] != "" && (s.Depth == 1 || thorough || (era == "conway" && ri%2 == 0) || (era != "conway" && ri%8 == 1)) {
+				jobs <- func() { e.ruleLevel(s, era, "min", maps[0], false, true) }
+			}
 		}
 		// the eras that delegate, other maps and encodings: every sideEvery-th script
 		if s.Depth == 1 || ri%sideEvery == 0 {
+			nd := 0
 			for _, era := range []string{"mary", "alonzo", "babbage"} {
 				era := era
-				jobs <- func() { e.ruleLevel(s, era, "min", maps[0], false) }
+				jobs <- func() { e.ruleLevel(s, era, "min", maps[0], false, false) }
+				// flagged: the delegating eras that have the flag take turns (all of them for the
+				// leaves and in the thorough tier)
+				if e.flag[era] != "" {
+					if s.Depth == 1 || thorough || (ri/sideEvery)%2 == nd%2 {
+						jobs <- func() { e.ruleLevel(s, era, "min", maps[0], false, true) }
+					}
+					nd++
+				}
 			}
 			jobs <- func() {
-				e.ruleLevel(s, Eras[1+ri%6], "min", maps[4], false)
-				e.ruleLevel(s, Eras[1+(ri/2)%6], "wide", maps[1+ri%3], false)
+				e.ruleLevel(s, Eras[1+ri%6], "min", maps[4], false, false)
+				e.ruleLevel(s, Eras[1+(ri/2)%6], "wide", maps[1+ri%3], false, false)
+				if fe := flaggedEras[ri%len(flaggedEras)]; thorough || s.Depth == 1 {
+					e.ruleLevel(s, fe, "min", maps[4], false, true)
+					e.ruleLevel(s, fe, "wide", maps[1+ri%3], false, true)
+				}
 			}
 		}
 		// the whole rule list, rule by rule
 		if s.Depth == 1 || ri%fullEvery == 0 {
 			for _, era := range Eras[1:] {
 				era := era
-				jobs <- func() { e.ruleLevel(s, era, "min", maps[0], true) }
+				jobs <- func() { e.ruleLevel(s, era, "min", maps[0], true, false) }
+				if e.flag[era] != "" && (s.Depth == 1 || thorough) {
+					jobs <- func() { e.ruleLevel(s, era, "min", maps[0], true, true) }
+				}
 			}
 		}
 	}
@@ -742,6 +903,8 @@ func main() {
 	}
 	rep.Extra["c29_time_maps"] = md
 	rep.Extra["c29_encodings"] = encs
+	rep.Extra["c29_is_valid_false_eras"] = e.flag
+	rep.Extra["c29_is_valid_false_set_aside"] = e.p2base
 	rep.Extra["c29_disagreements_by_class"] = e.o.counts
 	rep.Extra["c29_disagreements_total"] = e.o.total
 	rep.Extra["c29_skipped"] = e.o.notes
